@@ -78,8 +78,19 @@ class Variable(FortranObj):
             return
         if self.parent is not None:
             link_obj = find_in_scope(self.parent, self.link_name, obj_tree)
-            if link_obj is not None:
+            if (link_obj is not None) and (not self.is_linked_from(link_obj)):
                 self.link_obj = link_obj
+
+    def is_linked_from(self, other) -> bool:
+        """Check if following the links of ``other`` leads (back) to this object,
+        i.e. linking to ``other`` would create a circular chain of links"""
+        seen = []
+        while (other is not None) and all(other is not obj for obj in seen):
+            if other is self:
+                return True
+            seen.append(other)
+            other = getattr(other, "link_obj", None)
+        return False
 
     def require_link(self):
         return self.link_name is not None
